@@ -325,92 +325,4 @@ Proof.
   destruct tlf; cbn [bind r_k r_g r_tls r_tlreg on_get]; reflexivity.
 Qed.
 
-(* ---- _parse_taxa_block ---- *)
-Lemma require_ucase_some : forall z z', require_next_token_ucase upper z = Ok z' -> z_cur z' = Some (cur_text z').
-Proof.
-  unfold require_next_token_ucase, fetch. intros z z'.
-  destruct (z_toks z) as [|t r]; [destruct (z_end z)|]; cbn; intros H; inversion H; reflexivity.
-Qed.
-
-Lemma g_taxa_loop_eq : forall tls reg fuel k g tok tns,
-  (do r <- g_parse_taxa_block_loop1 T lower upper c fuel (mkRs k g tls reg) (Some tok) tns ;; Ok (fst (fst r)))
-  = (do r <- taxa_loop lower upper c fuel k g tok tns ;; let '(k', g') := r in Ok (mkRs k' g' tls reg)).
-Proof.
-  intros tls reg; induction fuel as [|f IH]; intros k g tok tns; [reflexivity|].
-  cbn [g_parse_taxa_block_loop1 taxa_loop].
-  change (o_eq (Some tok) (s2z "END") || o_eq (Some tok) (s2z "ENDBLOCK")) with (str_eqb tok K_END || str_eqb tok K_ENDBLOCK).
-  destruct (str_eqb tok K_END || str_eqb tok K_ENDBLOCK); cbn [negb]; [reflexivity|].
-  unfold tk_require_next_token_ucase, tk_lift, st_z, st_set_z. cbn [r_k r_g r_tls r_tlreg].
-  destruct (require_next_token_ucase upper (k_z k)) as [z1| |] eqn:R1; cbn [bind]; try reflexivity.
-  rewrite (require_ucase_some _ _ R1).
-  change (o_eq (Some (cur_text z1)) (s2z "TITLE")) with (str_eqb (cur_text z1) K_TITLE).
-  (* TITLE *)
-  assert (E1 : forall (X : Type) (K : gst * option str * option nat -> res X),
-    (do r10 <- (if str_eqb (cur_text z1) K_TITLE
-                then do r2 <- g_parse_title_statement T upper (S f) (mkRs (set_z k z1) g tls reg) ;;
-                     let '(v_token, s) := r2 in
-                     do r1 <- g_new_taxon_namespace T c (S f) s v_token ;; let '(v_ns, s0) := r1 in Ok (s0, v_token, v_ns)
-                else Ok (mkRs (set_z k z1) g tls reg, Some (cur_text z1), tns)) ;; K r10)
-    = (do r1 <- (if str_eqb (cur_text z1) K_TITLE
-                 then do r <- parse_title upper (k_z (set_z k z1)) ;;
-                      let '(title, z2) := r in
-                      let '(i, k2, g2) := new_tns c (set_z (set_z k z1) z2) g (Some title) in
-                      Ok (title, k2, g2, Some i)
-                 else Ok (cur_text z1, set_z k z1, g, tns)) ;;
-       let '(token2, k2, g2, tns2) := r1 in K (mkRs k2 g2 tls reg, Some token2, tns2))).
-  { intros X K. destruct (str_eqb (cur_text z1) K_TITLE); [|reflexivity].
-    rewrite g_parse_title_statement_eq. unfold st_z, st_set_z. cbn [r_k r_g r_tls r_tlreg].
-    destruct (parse_title upper (k_z (set_z k z1))) as [[title z2]| |]; cbn [bind fst snd]; try reflexivity.
-    rewrite g_new_taxon_namespace_eq. unfold ifc_new_taxon_namespace, st_set_kg. cbn [r_k r_g r_tls r_tlreg].
-    destruct (new_tns c (set_z (set_z k z1) z2) g (Some title)) as [[i k2] g2]. reflexivity. }
-  rewrite E1; clear E1. rewrite !bind_assoc. cbv zeta.
-  match goal with |- bind ?A _ = _ => destruct A as [[[[token2 k2] g2] tns2]| |] end;
-    cbn [bind]; try reflexivity.
-  change (o_eq (Some token2) (s2z "DIMENSIONS")) with (str_eqb token2 K_DIMENSIONS).
-  change (o_eq (Some token2) (s2z "TAXLABELS")) with (str_eqb token2 K_TAXLABELS).
-  (* DIMENSIONS *)
-  assert (E2 : forall (X : Type) (K : gst -> res X),
-    (do r9 <- (if str_eqb token2 K_DIMENSIONS
-               then do r3 <- g_parse_dimensions_statement T upper (S f) (mkRs k2 g2 tls reg) ;; let '(_, s) := r3 in Ok s
-               else Ok (mkRs k2 g2 tls reg)) ;; K r9)
-    = (do k3 <- (if str_eqb token2 K_DIMENSIONS
-                 then do r <- parse_dimensions upper (S f) (k_z k2) (k_ntax k2) ;;
-                      let '(n, z3) := r in Ok (set_z (set_ntax k2 n) z3)
-                 else Ok k2) ;; K (mkRs k3 g2 tls reg))).
-  { intros X K. destruct (str_eqb token2 K_DIMENSIONS); [|reflexivity].
-    rewrite g_parse_dimensions_statement_eq. unfold st_z, st_set_k, rd_ntax. cbn [r_k r_g r_tls r_tlreg].
-    destruct (parse_dimensions upper (S f) (k_z k2) (k_ntax k2)) as [[n z3]| |]; reflexivity. }
-  rewrite E2; clear E2. rewrite !bind_assoc.
-  match goal with |- bind ?A _ = _ => destruct A as [k3| |] end;
-    cbn [bind]; try reflexivity.
-  (* TAXLABELS *)
-  destruct (str_eqb token2 K_TAXLABELS); cbn [bind]; [|apply IH].
-  destruct tns2 as [i|]; cbn [on_is_none]; rewrite ?g_new_taxon_namespace_eq;
-    unfold ifc_new_taxon_namespace, tk_process_and_clear, ifc_parse_taxlabels, st_set_kg, st_set_z, st_set_k, st_z;
-    cbn [bind r_k r_g r_tls r_tlreg on_get].
-  - destruct (parse_taxlabels lower c (S f) (set_z k3 (clear_comments (k_z k3))) i) as [k5| |]; cbn [bind]; try reflexivity.
-    apply IH.
-  - destruct (new_tns c k3 g2 None) as [[i k4] g4]. cbn [bind r_k r_g r_tls r_tlreg on_get].
-    destruct (parse_taxlabels lower c (S f) (set_z k4 (clear_comments (k_z k4))) i) as [k5| |]; cbn [bind]; try reflexivity.
-    apply IH.
-Qed.
-
-Theorem g_parse_taxa_block_eq : forall fuel (s : gst),
-  g_parse_taxa_block T lower upper c fuel s = ifc_parse_taxa_block T lower upper c fuel s.
-Proof.
-  intros fuel [k g tls reg].
-  unfold g_parse_taxa_block, ifc_parse_taxa_block, parse_taxa_block, tk_set_allow_eof, tk_skip_to_semicolon, zstep,
-    st_z, st_set_z, st_set_kg. cbn [r_k r_g r_tls r_tlreg].
-  destruct (skip_to_semicolon fuel (k_z k)) as [z1| |]; cbn [bind]; try reflexivity.
-  pose proof (g_taxa_loop_eq tls reg fuel (set_z k z1) g [] None) as L.
-  match type of L with (bind ?G _) = _ =>
-    match goal with |- context [g_parse_taxa_block_loop1 T lower upper c fuel ?s0 ?t0 ?n0] =>
-      change (g_parse_taxa_block_loop1 T lower upper c fuel s0 t0 n0) with G end;
-    destruct G as [[[s' t'] n']| |] end;
-    destruct (taxa_loop lower upper c fuel (set_z k z1) g [] None) as [[k2 g2]| |]; cbn [bind fst snd] in *;
-    cbv beta iota in L; try discriminate L; try (injection L as ->; reflexivity); try reflexivity.
-  injection L as ->. cbn [r_k r_g r_tls r_tlreg].
-  destruct (skip_to_semicolon fuel (k_z k2)); reflexivity.
-Qed.
-
 End S.
